@@ -221,6 +221,11 @@ class AsyncSocks5Connection(AsyncConnectionInterface):
 
         async with self._connect_lock:
             if self._connection is None:
+                if self._connect_failed:
+                    # An earlier request's connection attempt failed or was
+                    # cancelled while we were waiting for the lock: the pool
+                    # has already discarded this connection.
+                    raise ConnectionNotAvailable()
                 stream: AsyncNetworkStream | None = None
                 try:
                     # Connect to the proxy
